@@ -108,6 +108,10 @@ static std::vector<uint64_t> pct_points;
 static int pct_next = 0;
 static int last_choice = 0;
 static std::map<int,int64_t> node_skew;
+static std::vector<int> guided_tape, pending_tape, recorded; static bool guided=false, pending_guided=false, record_on=false; static size_t dec_i=0;
+void set_guided_tape(const std::vector<int> &t){ pending_tape=t; pending_guided=true; }
+void set_record_schedule(bool on){ record_on=on; }
+const std::vector<int> &recorded_schedule(){ return recorded; }
 
 void (*on_fatal)(const char *cls,const std::string &msg) = nullptr;
 
@@ -176,7 +180,13 @@ static void schedule(){
 			continue;
 		}
 		int c;
-		if(tape_pos < P.tape.size()) c = cand[P.tape[tape_pos++] % cand.size()];
+		if(guided){
+			int want = dec_i < guided_tape.size() ? guided_tape[dec_i] : SCHED_DEFAULT; dec_i++; c = SCHED_DEFAULT;
+			if(want != SCHED_DEFAULT) for(int x:cand) if(x==want) c=x;
+			if(c==SCHED_DEFAULT){ for(int x:cand) if(x==last_choice) c=x; }
+			if(c==SCHED_DEFAULT){ c=cand[0]; for(int x:cand){ bool better = (x>=0 && (c<0 || x<c)) || (x<0 && c<0 && x>c); if(better) c=x; } }
+		}
+		else if(tape_pos < P.tape.size()) c = cand[P.tape[tape_pos++] % cand.size()];
 		else if(cand.size()==1) c = cand[0];
 		else switch(P.strategy){
 		case S_RUN_TO_BLOCK: {
@@ -195,6 +205,7 @@ static void schedule(){
 		default: c = cand[sched_rng.below(cand.size())];
 		}
 		trace_mix((uint64_t)(c+1000));
+		if(record_on) recorded.push_back(c);
 		if(c!=last_choice) S.switches++;
 		last_choice = c;
 		if(c<0){ in_actor=true; actors[-c-1]->step(); in_actor=false; continue; }
@@ -247,6 +258,7 @@ void begin(const Params &p){
 	threads.clear(); actors.clear(); actor_prio.clear(); in_actor=false; tape_pos=0; last_choice=0;
 	mtx.clear(); cwait.clear(); rws.clear(); by_handle.clear(); node_skew.clear();
 	pct_points.clear(); pct_next=0;
+	guided=pending_guided; guided_tape=pending_tape; pending_guided=false; pending_tape.clear(); dec_i=0; recorded.clear();
 	if(p.strategy==S_PCT){ for(int i=0;i<p.pct_depth-1;i++) pct_points.push_back(1+sched_rng.below(p.pct_len>0?p.pct_len:1)); std::sort(pct_points.begin(),pct_points.end()); }
 	fs_reset(); fd_reset(); probes().clear();
 	auto *t=new Thread; t->id=0; t->prio = p.pct_depth + (int64_t)sched_rng.below(1<<20); threads.push_back(t); self=t; g_active=true;
@@ -308,7 +320,7 @@ extern "C" void __wrap__ZNSt18condition_variable10notify_allEv(std::condition_va
 }
 extern "C" void __wrap__ZNSt18condition_variable10notify_oneEv(std::condition_variable*cv){ IGN;
 	if(!in_sim()){ __real__ZNSt18condition_variable10notify_oneEv(cv); return; }
-	auto it=cwait.find(cv); if(it!=cwait.end() && !it->second.empty()){ auto &v=it->second; size_t i=sched_rng.below(v.size()); trace_mix(0xC0+i); v[i]->signaled=true; v.erase(v.begin()+i); }
+	auto it=cwait.find(cv); if(it!=cwait.end() && !it->second.empty()){ auto &v=it->second; size_t i=guided ? 0 : sched_rng.below(v.size()); trace_mix(0xC0+i); v[i]->signaled=true; v.erase(v.begin()+i); }
 	yield();
 }
 using StatePtr = std::unique_ptr<std::thread::_State>;
